@@ -164,12 +164,14 @@ type balTx struct {
 	sigKind  string
 }
 
-func TestBalance(t *testing.T) {
-	Sim(t, func(r *Run) {
-		e := &balEngine{r: r}
-		e.run()
-	})
+func balBody(r *Run) {
+	e := &balEngine{r: r}
+	e.run()
 }
+
+func init() { RegisterEngine("balance", []string{"C01", "C02", "C09"}, balBody) }
+
+func TestBalance(t *testing.T) { Sim(t, balBody) }
 
 func (e *balEngine) run() {
 	t := e.r.T
